@@ -12,7 +12,8 @@ TARGETS = ["Proofs.C05", "Proofs.C05Rank", "Proofs.GenEq.Det"]
 GEN_PREFIXES = ["det."]
 TRANSLATED = ["mae", "bias", "diff", "ratio", "ef", "stderror", "obsstddev", "fcststddev", "rmse", "rmsf", "cmae",
               "nsec", "nnsec", "alphaindex", "dmb", "mbias", "derror"]
-HAND = ["corr", "kge", "rankcorr", "kendallcorr", "leps"]   # hand-written models (NumPy/SciPy library calls, loop)
+TRANSLATED_LIB = ["corr", "kge"]    # machine-translated too, with np.corrcoef(obs, fcst)[1, 0] as the primitive corrCore
+HAND = ["corr", "kge", "rankcorr", "kendallcorr", "leps"]   # models in Model/DetMetrics, DetRank (corr, kge: = generated)
 SPEC_HAND = ["corr", "kge", "rankcorr", "kendallcorr"]     # ... whose Lean Spec (Spec/Rank.lean) is also an oracle
 IMPL_ONLY = []                                             # metrics without a Lean model: none left
 RANK_THEOREMS = [
@@ -37,7 +38,7 @@ THEOREMS = {
         "C05_selectWithin", "C05_fromfield_obs_by_fcst", "C05_fromfield_fcst_by_obs", "C05_fromfield_empty_bin",
         "C05_obsfcst_by_obs"]],
     "Proofs.C05Rank": ["VerifModel.C05." + t for t in RANK_THEOREMS],
-    "Proofs.GenEq.Det": ["VerifModel.GenEq.Det.%s_eq" % n for n in TRANSLATED],
+    "Proofs.GenEq.Det": ["VerifModel.GenEq.Det.%s_eq" % n for n in TRANSLATED + TRANSLATED_LIB],
 }
 TRUSTED_BASE = [
     "Lean 4.33 kernel; axioms propext, Classical.choice, Quot.sound only",
@@ -85,6 +86,15 @@ LEVEL_TEXT = ("Lean theorems: 17 formula bodies, machine-translated from /repo o
               "is the empirical CDF, its observation term is argsort/N: the perfect score 0 is unreachable for every "
               "non-empty input (known finding leps-perfect, theorem C05_leps_never_perfect).")
 TECHNIQUE = "Lean 4 proof; formulas regenerated from source by a translator and re-proved each run; differential correspondence"
+# ---- translator extension: corr and kge are machine-translated too (np.corrcoef(obs, fcst)[1, 0] = primitive corrCore)
+TRUSTED_BASE = TRUSTED_BASE + [
+    "harness/pyexpr.py: `np.corrcoef(x, y)[1, 0]` is the primitive corrCore of Model/Corrcoef.lean (covariance sum / root / "
+    "root, limited to [-1, 1]); `np.nan in [computed numbers]` is False (identity semantics of `in`); with these Corr and "
+    "Kge._compute_from_obs_fcst are regenerated into Gen/Det.lean (m_corr, m_kge), executed by the streams metric.det / "
+    "small / rank / decimal, and GenEq.Det.corr_eq / kge_eq prove them equal to the models `corr` / `kge` of "
+    "Model/DetMetrics.lean (whose relation to Pearson's r / Gupta's KGE is C05_corr_def / C05_kge_def) for ALL vectors"]
+LEVEL_TEXT += (" corr and kge: their guards and arithmetic are machine-translated as well (np.corrcoef as a primitive) and "
+               "proved equal to the models the rank theorems are about (corr_eq, kge_eq).")
 GRID = [-1.0, -0.5, 0.0, 0.125, 0.5, 1.0, 1.5, 2.0, 3.25]
 
 
